@@ -37,7 +37,7 @@ pub open spec fn sp_array(t: DeriveTrait, inner: CanDerive, len: usize) -> CanDe
     else if len > RUST_DERIVE_IN_ARRAY_LIMIT { CanDerive::Manually }                // "arrays beyond the 32-element limit"
     else { CanDerive::Yes }
 }
-pub open spec fn sp_comp(a: &CannotDerive, item: &Item, info: CompInfo) -> CanDerive {
+pub open spec fn sp_comp(a: &CannotDerive, item: &Item, ty: &Type, info: CompInfo) -> CanDerive {
     let t = a.derive_trait;
     let ctx = a.ctx;
     if t != DeriveTrait::Debug && info.s_forward_decl() { CanDerive::No }
@@ -47,6 +47,8 @@ pub open spec fn sp_comp(a: &CannotDerive, item: &Item, info: CompInfo) -> CanDe
     else if info.s_kind() == CompKind::Union && t != DeriveTrait::Copy {
         if ctx.spec_options().untagged_union { CanDerive::No } else { CanDerive::Yes }               // "Rust unions for anything but Copy"
     }
+    // "non-Copy packed types": a packed type that does not get Copy gets no derive at all (derives_of_item), so nothing can be derived THROUGH it (F27)
+    else if t != DeriveTrait::Copy && info.s_packed(ctx, ty) && !(item.s_can_derive_copy(ctx) && !item.s_disallow_copy()) { CanDerive::No }
     else if t == DeriveTrait::Default && item.s_has_vtable(ctx) { CanDerive::No }                   // "vtables"
     else if t == DeriveTrait::Default && info.s_large_bitfield_unit() && !item.s_opaque(ctx) { CanDerive::No }
     else { s_join(a, item, EdgePredicate::Comp(t)) }
@@ -69,7 +71,7 @@ pub open spec fn expected(a: &CannotDerive, item: &Item, ty: &Type) -> CanDerive
             TypeKind::Array(e, len) => sp_array(t, s_lookup(&a.can_derive, e), len),
             TypeKind::Vector(e, len) => if s_lookup(&a.can_derive, e) != CanDerive::Yes { CanDerive::No }
                                         else if t == DeriveTrait::PartialEqOrPartialOrd { CanDerive::No } else { CanDerive::Yes },
-            TypeKind::Comp(info) => sp_comp(a, item, info),
+            TypeKind::Comp(info) => sp_comp(a, item, ty, info),
             TypeKind::ResolvedTypeRef(..) | TypeKind::TemplateAlias(..) | TypeKind::Alias(..) | TypeKind::BlockPointer(..) => s_join(a, item, EdgePredicate::TypeRef(t)),
             TypeKind::TemplateInstantiation(..) => s_join(a, item, EdgePredicate::TmplInst(t)),
             k => sp_simple(t, k),
@@ -114,7 +116,7 @@ def tbl(name, ens, **kw):
 UNIT = {
     "name": "constrain",
     "env": [os.path.join(ENV, "constrain_env.rs")],
-    "declared_trusted": {r"external_body": 49},
+    "declared_trusted": {r"external_body": 52},
     "items": [
         {"kind": "const", "file": "bindgen/ir/ty.rs", "name": "RUST_DERIVE_IN_ARRAY_LIMIT"},
         {"kind": "enum", "file": "bindgen/ir/derive.rs", "name": "CanDerive", "prefix": "#[derive(Copy, Clone, PartialEq, Eq, Structural)]"},
@@ -139,6 +141,7 @@ UNIT = {
         {"kind": "fn", "file": DR, "name": "constrain_type", **CD, "ret": "r",
          "subst": [
              ("self.can_derive.get(&t.into()).copied().unwrap_or_default()", "table_lookup(&self.can_derive, t)", 2, "R5"),
+             ("info.is_packed(self.ctx, ty.layout(self.ctx).as_ref())", "info.is_packed_for(self.ctx, ty)", 0, "R5 accessor chain (if present)"),
              ('assert!( !info.has_non_type_template_params(), "The early ty.is_opaque check should have handled this case" );',
               "runtime_assert(!info.has_non_type_template_params());", 1, "R15 assert!"),
              ('assert_ne!(len, 0, "vectors cannot have zero length");', "runtime_assert(len != 0);", 1, "R15 assert!"),
